@@ -66,7 +66,7 @@ def site_key(o):
 
 def run_govc(pkgs, only, timeout, workdir, tag, overlay=None, extra=None):
     out = os.path.join(workdir, "res_%s.json" % tag)
-    cmd = [GOVC, "-repo", REPO, "-pkgs", ",".join(pkgs), "-only", only, "-out", out, "-timeout", str(timeout),
+    cmd = [GOVC, "-repo", REPO, "-pkgs", ",".join(pkgs), "-only", only, "-out", out, "-timeout", str(timeout), "-jobs", os.environ.get("VERIF_GOVC_JOBS", "16"),
            "-smtdir", os.path.join(workdir, "smt_" + tag)]
     if overlay:
         cmd += ["-overlay", overlay]
